@@ -51,9 +51,10 @@ Proof.
   - discriminate.
 Qed.
 
-Lemma stereo_of_errors sb n m e : stereo_of sb n m = Err e -> e = KeyError.
+Lemma stereo_of_errors sb n m b e : stereo_of sb n m b = Err e -> e = KeyError.
 Proof.
   unfold stereo_of. destruct (zget sb n) as [dn|]; [|discriminate]. destruct (zget sb m) as [dm0|]; [|discriminate].
+  destruct (negb _); [discriminate|].
   destruct (zmem m (keys dn)); [discriminate|]. destruct (popitem dn) as [[dn' s1]|]; [|intros H; inversion H; reflexivity].
   destruct (zget _ m) as [dm|]; [|intros H; inversion H; reflexivity].
   destruct (popitem dm) as [[dm' s2]|]; [discriminate|intros H; inversion H; reflexivity].
@@ -64,7 +65,7 @@ Lemma bonds_loop_errors bs : forall sb seen e n0, Forall (SmartsParser.bwf n0) b
 Proof.
   induction bs as [|[[n m] b] r IH]; intros sb seen e n0 Hb; cbn [bonds_loop]; [discriminate|].
   inversion Hb as [|? ? H1 H2]; subst. destruct H1 as [_ [_ Hi]].
-  destruct (stereo_of sb n m) as [[st sb']|e1] eqn:E1; [|intros H; inversion H; subst; right; eapply stereo_of_errors; exact E1].
+  destruct (stereo_of sb n m b) as [[st sb']|e1] eqn:E1; [|intros H; inversion H; subst; right; eapply stereo_of_errors; exact E1].
   destruct (qbond_of_payload b) as [q|e2] eqn:E2; [|intros H; inversion H; subst; left; rewrite (qbond_of_payload_errors _ _ Hi E2); reflexivity].
   destruct (n =? m); [intros H; inversion H; left; reflexivity|].
   destruct (existsb _ seen); [intros H; inversion H; left; reflexivity|].
@@ -90,10 +91,10 @@ Proof.
   eapply bonds_loop_errors; eassumption.
 Qed.
 
-(* the full statement (never anything but a ValueError-class exception) is FALSE for the unchanged code: two marked alkene
-   carbons joined by a single bond, or a carbon with two marked double bonds *)
+(* the full statement (never anything but a ValueError-class exception) is FALSE for the unchanged code (after fix f821fac
+   only for a ring closure that closes on its own atom next to one direction mark: both popitem() hit the same dictionary) *)
 Theorem smarts_full_total_refuted :
-  smarts_full "C/C=C(/C)C(/C)=C/C" = Err KeyError /\ smarts_full "F/C(=C/F)=C/F" = Err KeyError.
+  smarts_full "F/C=1=1" = Err KeyError /\ smarts_full "F/C1=1" = Err KeyError.
 Proof. vm_compute. split; reflexivity. Qed.
 
 (* it holds for every text whose parse has no direction marks left to consume *)
